@@ -3,7 +3,7 @@
 //! layout the formatter produces (counters, line ending) is symbolic.
 use crate::common::*;
 use crate::rmodel::*;
-use crate::{cover, note, recon_harness};
+use crate::{cover, note, cursor_harness};
 use pasfmt_core::defaults::reconstructor::DelphiLogicalLinesReconstructor;
 use pasfmt_core::formatter::Cursor;
 use pasfmt_core::lang::*;
@@ -124,7 +124,7 @@ pub fn x_body(src: Src, cursor: u32, hard: bool, iw: u8, cw: u8, contract: bool,
 }
 
 macro_rules! cur { ($($name: ident => ($src: expr, $c: expr, $h: expr, $iw: expr, $cw: expr, $contract: expr, $ign: expr)),* $(,)?) => {$(
-    recon_harness! { fn $name() unwind(10) { x_body($src, $c, $h, $iw, $cw, $contract, $ign) } }
+    cursor_harness! { fn $name() unwind(9) { x_body($src, $c, $h, $iw, $cw, $contract, $ign) } }
 )*}}
 
 cur! {
@@ -165,4 +165,200 @@ cur! {
     c15_x_list1_ignored_c3 => (LIST1, 3, false, 2, 4, true, true),
     c15_x_list1_ignored_c5 => (LIST1, 5, false, 2, 4, true, true),
     c15_x_list3_ignored_c8 => (LIST3, 8, false, 2, 4, true, true),
+}
+
+
+// ---------------------------------------------------------------------------------------------
+// Decomposition: A (attach) and B (re-projection), joined by the reference attach function.
+use pasfmt_core::defaults::reconstructor::verif_hooks_reconstructor as rh;
+use rh::Pos;
+
+fn count_lf(s: &[u8]) -> usize {
+    let mut n = 0;
+    let mut i = 0;
+    while i < s.len() {
+        if s[i] == b'\n' {
+            n += 1;
+        }
+        i += 1;
+    }
+    n
+}
+
+fn is_multiline_kind(k: RawTokenType) -> bool {
+    matches!(k, RawTokenType::TextLiteral(TextLiteralKind::MultiLine) | RawTokenType::Comment(CommentKind::MultilineBlock))
+}
+
+/// Reference attach (the specification of `process_cursors` for one cursor): the token a cursor
+/// belongs to (it sticks to the token that ends at it) and its position kind.
+pub fn ref_attach(src: &Src, cursor: u32) -> (usize, Pos) {
+    let c = cursor as usize;
+    let mut base = 0usize;
+    let mut k = 0;
+    while k < 3 {
+        let text = src.toks[k].0.as_bytes();
+        let ws = src.toks[k].1 as usize;
+        if c <= base + text.len() {
+            let rel = c - base;
+            if rel >= ws {
+                let p = rel - ws;
+                if is_multiline_kind(src.toks[k].2) {
+                    let after = &text[ws + p..];
+                    let mut rc = 0;
+                    while rc < after.len() && after[rc] != b'\n' {
+                        rc += 1;
+                    }
+                    return (k, Pos::MultilineContent { reverse_col: rc as u16, newlines_after_cursor: count_lf(after) as u16 });
+                }
+                return (k, Pos::Content { offset: p as u32 });
+            }
+            let before = &text[..rel];
+            let after = &text[rel..ws];
+            // column: bytes since the last line break, looking back through earlier tokens
+            let mut col = 0usize;
+            let mut found = false;
+            let mut i = before.len();
+            while i > 0 {
+                if before[i - 1] == b'\n' {
+                    found = true;
+                    break;
+                }
+                col += 1;
+                i -= 1;
+            }
+            let mut j = k;
+            while !found && j > 0 {
+                j -= 1;
+                let t = src.toks[j].0.as_bytes();
+                let mut i = t.len();
+                while i > 0 {
+                    if t[i - 1] == b'\n' {
+                        found = true;
+                        break;
+                    }
+                    col += 1;
+                    i -= 1;
+                }
+            }
+            return (k, Pos::Whitespace { col: col as u16, newlines_after_cursor: count_lf(after) as u16 });
+        }
+        base += text.len();
+        k += 1;
+    }
+    (3, Pos::Content { offset: 0 })
+}
+
+fn raw_tokens(src: &Src) -> [RawToken<'static>; 3] {
+    [
+        RawToken::new(src.toks[0].0, src.toks[0].1, src.toks[0].2),
+        RawToken::new(src.toks[1].0, src.toks[1].1, src.toks[1].2),
+        RawToken::new(src.toks[2].0, src.toks[2].1, src.toks[2].2),
+    ]
+}
+
+/// A: the real `process_cursors` == reference attach, for one concrete cursor offset per
+/// instance... or a symbolic cursor in `lo..=hi`.
+pub fn a_body(src: Src, lo: u32, hi: u32) {
+    let cursor: u32 = kani::any();
+    kani::assume(cursor >= lo && cursor <= hi);
+    let recon = DelphiLogicalLinesReconstructor::new(recon_settings(false, false, 2, 4));
+    let raw = raw_tokens(&src);
+    let got = rh::attach(&recon, cursor, &raw);
+    let want = ref_attach(&src, cursor);
+    note!("cursor", cursor);
+    assert!(got.0 == want.0, "cursor attached to the wrong token");
+    assert!(got.1 == want.1, "cursor position kind/fields differ from the reference");
+    cover!(matches!(want.1, Pos::Whitespace { .. }), "in_whitespace");
+    cover!(matches!(want.1, Pos::Content { .. }), "in_content");
+    std::mem::forget(recon);
+}
+
+/// B: the real `relocate_cursors` from the (reference) attach state of a SYMBOLIC cursor, on a
+/// symbolic new layout under the stage contracts: result within the output; inside / at the end
+/// of a token (texts are unchanged here) => same offset in that token; beyond the end => end;
+/// in blanks => stays in the gap before the same token.
+pub fn b_body(src: Src, lo: u32, hi: u32, hard: bool, iw: u8, cw: u8, ignore_b: bool) {
+    let cursor: u32 = kani::any();
+    kani::assume(cursor >= lo && cursor <= hi);
+    let s = Settings { crlf: kani::any(), hard, iw, cw };
+    let mut cb = any_counters(2, 1);
+    cb.ignored = ignore_b;
+    kani::assume(cb.nl > 0 || (cb.ind == 0 && cb.cont == 0));
+    kani::assume(cb.nl == 0 || cb.sp == 0);
+    let a = src.toks[0].3;
+    let needs_break = is_singleline_comment(a) || matches!(a, TokenType::Comment(CommentKind::MultilineBlock));
+    let b_own_line = matches!(src.toks[1].3, TokenType::TextLiteral(TextLiteralKind::MultiLine) | TokenType::Comment(CommentKind::MultilineBlock | CommentKind::IndividualBlock | CommentKind::IndividualLine));
+    kani::assume(!(needs_break || b_own_line) || cb.nl > 0 || ignore_b);
+    let ca = Counters { ignored: false, nl: 0, ind: 0, cont: 0, sp: 0 };
+    let ce = Counters { ignored: false, nl: 1, ind: 0, cont: 0, sp: 0 };
+    let rt = [
+        RTok { text: src.toks[0].0, ws_len: src.toks[0].1, kind: src.toks[0].3, c: ca },
+        RTok { text: src.toks[1].0, ws_len: src.toks[1].1, kind: src.toks[1].3, c: cb },
+        RTok { text: src.toks[2].0, ws_len: src.toks[2].1, kind: src.toks[2].3, c: ce },
+    ];
+    let recon = DelphiLogicalLinesReconstructor::new(recon_settings(s.crlf, s.hard, s.iw, s.cw));
+    let mut toks = [tok(rt[0].text, rt[0].ws_len, rt[0].kind), tok(rt[1].text, rt[1].ws_len, rt[1].kind), tok(rt[2].text, rt[2].ws_len, rt[2].kind)];
+    let fmt = vec![fd(ca.ignored, ca.nl, ca.ind, ca.cont, ca.sp), fd(cb.ignored, cb.nl, cb.ind, cb.cont, cb.sp), fd(ce.ignored, ce.nl, ce.ind, ce.cont, ce.sp)];
+    let ft = FormattedTokens::verif_new(&mut toks, fmt);
+    let (tok_idx, pos) = ref_attach(&src, cursor);
+    let result = rh::relocate(&recon, tok_idx, pos, &ft) as usize;
+    note!("cursor", cursor);
+    note!("result", result);
+    // ground truth positions: reference layout (== real output by obligation R0, C01/P5)
+    let l = layout3(&rt, &s, &[]);
+    let out_len = l.len;
+    assert!(result <= out_len, "cursor reported outside the output");
+    let total: usize = src.toks[0].0.len() + src.toks[1].0.len() + src.toks[2].0.len();
+    let c = cursor as usize;
+    if c > total {
+        assert!(result == out_len, "a cursor beyond the end must map to the end of the output");
+    } else {
+        let k = tok_idx;
+        let mut base = 0;
+        let mut j = 0;
+        while j < k {
+            base += src.toks[j].0.len();
+            j += 1;
+        }
+        let ws = src.toks[k].1 as usize;
+        if c >= base + ws {
+            assert!(result == l.start[k] + (c - base - ws), "cursor inside an unchanged token moved relative to that token");
+        } else {
+            assert!(result >= l.ws_start[k] && result <= l.start[k], "cursor in blanks left the gap before its token");
+        }
+    }
+    cover!(cb.nl == 2 && !ignore_b, "blank_line_in_new_layout");
+    cover!(matches!(pos, Pos::Whitespace { .. }), "in_whitespace");
+    std::mem::forget(ft);
+    std::mem::forget(recon);
+}
+
+macro_rules! att { ($($name: ident => ($src: expr, $lo: expr, $hi: expr)),* $(,)?) => {$(
+    cursor_harness! { fn $name() unwind(9) { a_body($src, $lo, $hi) } }
+)*}}
+att! {
+    c15_a_attach_list1_c3 => (LIST1, 3, 3),
+    c15_a_attach_list3_c8 => (LIST3, 8, 8),
+    c15_a_attach_list1_all => (LIST1, 0, 9),
+    c15_a_attach_list2_all => (LIST2, 0, 10),
+    c15_a_attach_list3_all => (LIST3, 0, 15),
+    c15_a_attach_list4_all => (LIST4, 0, 18),
+    c15_a_attach_list1_huge => (LIST1, 1000, u32::MAX),
+}
+macro_rules! rel { ($($name: ident => ($src: expr, $lo: expr, $hi: expr, $h: expr, $iw: expr, $cw: expr, $ign: expr)),* $(,)?) => {$(
+    cursor_harness! { fn $name() unwind(9) { b_body($src, $lo, $hi, $h, $iw, $cw, $ign) } }
+)*}}
+rel! {
+    c15_b_relocate_list1_c1 => (LIST1, 1, 1, false, 2, 4, false),
+    c15_b_relocate_list1_c3 => (LIST1, 3, 3, false, 2, 4, false),
+    c15_b_relocate_list3_c4 => (LIST3, 4, 4, false, 2, 4, false),
+    c15_b_relocate_list3_c8 => (LIST3, 8, 8, false, 2, 4, false),
+    c15_b_relocate_list1_all => (LIST1, 0, 9, false, 2, 4, false),
+    c15_b_relocate_list1_all_hard => (LIST1, 0, 9, true, 1, 1, false),
+    c15_b_relocate_list2_all => (LIST2, 0, 10, false, 2, 4, false),
+    c15_b_relocate_list3_all => (LIST3, 0, 15, false, 2, 4, false),
+    c15_b_relocate_list4_all => (LIST4, 0, 18, false, 2, 4, false),
+    c15_b_relocate_list1_ignored => (LIST1, 0, 9, false, 2, 4, true),
+    c15_b_relocate_list3_ignored => (LIST3, 0, 15, false, 2, 4, true),
+    c15_b_relocate_list1_huge => (LIST1, 1000, u32::MAX, false, 2, 4, false),
 }
